@@ -1022,7 +1022,11 @@ def _add_or_enqueue_event(
                 worker_id=id,
                 shared_state=shared_state,
                 attempts=event.attempts or 0,
-                first_attempt_at=event.first_attempt_at or now_seconds,
+                first_attempt_at=(
+                    event.first_attempt_at
+                    if event.first_attempt_at is not None
+                    else now_seconds
+                ),
                 last_exception=event.last_exception,
                 last_failed_at=event.last_failed_at,
                 recovery_counts=dict(event.recovery_counts),
